@@ -33,7 +33,7 @@ def build_term(spec, idx):
         elif kind == "f":
             o = AntiSymmetricTensor("f", t[:1], t[1:], 1)
         else:
-            o = NonSymmetricTensor("X", t)
+            o = NonSymmetricTensor(kind if kind in ("Y", "Z") else "X", t)
         fs.append(o ** exp)
     return Mul(*fs)
 
@@ -189,9 +189,22 @@ def sorter_check(case):
 def eps_cases(tier, seed):
     rng = random.Random(seed + 4)
     yield {"expr": "ph_second_order"}
+    bases = [
+        [["V", ["i", "k", "a", "c"], 1], ["t", ["b", "c", "j", "k"], 1]],
+        # products of one and the same tensor: several permutations map a term
+        # onto the same partner (P_ij X = P_ab X, P_ij P_ab X = X)
+        [["Y", ["i", "a"], 1], ["Y", ["j", "b"], 1]],
+        [["Y", ["i", "a"], 1], ["Z", ["j", "b"], 1]],
+        [["f", ["i", "a"], 1], ["f", ["j", "b"], 1]],
+        [["t", ["a", "c", "i", "k"], 1], ["t", ["b", "c", "j", "k"], 1]],
+        [["Y", ["i", "j"], 1], ["Y", ["a", "b"], 1]],
+    ]
+    for base in bases[1:]:
+        for signs in ([-1, -1], [1, 1], [-1, 1]):
+            yield {"expr": "custom", "base": base, "perms": [["i", "j"], ["a", "b"]], "signs": signs}
+        yield {"expr": "custom", "base": base, "perms": [["i", "j"]], "signs": [-1]}
     for _ in range(15 if tier == "quick" else 200):
-        names = ["i", "j", "a", "b", "k", "c"]
-        base = [["V", ["i", "k", "a", "c"], 1], ["t", ["b", "c", "j", "k"], 1]]
+        base = rng.choice(bases)
         yield {"expr": "custom", "base": base,
                "perms": rng.sample([["i", "j"], ["a", "b"]], rng.randint(0, 2)),
                "signs": [rng.choice([1, -1]) for _ in range(2)]}
@@ -240,5 +253,5 @@ CHECKS = {
         "bound": "sums of <= 4 such terms: parts sum to the expression, term counts agree, bucket keys equal an independent key computation; filter_tensor 'low'"},
     "exploit_perm_sym.lossless": {
         "function": "adcgen.sort_expr:exploit_perm_sym", "cases": eps_cases, "check": eps_check,
-        "bound": "(anti)symmetrised two-tensor expressions with targets ijab: applying the returned permutation operators to the returned parts reproduces the expression"},
+        "bound": "(anti)symmetrised products of two (different or identical) tensors / amplitudes / Fock elements, targets ijab: applying the returned permutation operators to the returned parts reproduces the expression"},
 }
